@@ -204,6 +204,8 @@ Qed.
 
 Section Votes.
 Variable v : variant.
+(* the vote store only grows -- except by the repaired address rotation, which re-keys marks *)
+Hypothesis Hrot : v_rot v = false.
 Variable H : string -> string.
 Variable minrew : Z.
 Notation step := (step v H minrew).
@@ -250,6 +252,7 @@ Proof.
       repeat match goal with X : send _ _ _ _ = Ok _ |- _ => apply send_marks in X; simpl in X end; congruence.
   - repeat (dmatch_in E; try discriminate). left; eapply send_marks; eauto.
   - repeat (dmatch_in E; try discriminate). left; eapply send_marks; eauto.
+  - (* rotation *) rewrite Hrot in E. destruct (negb ok); [discriminate|]. inversion E. left. reflexivity.
 Qed.
 
 Lemma marks_step : forall s o s', step s o = Ok s' ->
@@ -409,16 +412,6 @@ Proof.
   { apply forallb_forall. intros; apply acct_eqb_refl. }
   rewrite X. reflexivity.
 Qed.
-
-(* ---- the clauses a repaired tree may still produce: the design-level ones *)
-Definition starts_key (c : string) : bool :=
-  match c with String "k" (String "e" (String "y" (String ":" _))) => true | _ => false end.
-Definition residual (c : string) : bool :=
-  starts_key c ||
-  str_in c ["blocked:multisend"; "whitelist:multisend"; "limits:multisend"; "whitelist:custody_send"; "limits:custody_send"]%string.
-
-Lemma residual_key : forall a b, residual (cl3 "key" a b) = true.
-Proof. intros. unfold residual, cl3. simpl. reflexivity. Qed.
 
 (* ---- custodians *)
 Lemma alist_get_in : forall V k (x : V) l, alist_get k l = Some x -> In (k, x) l.
@@ -639,12 +632,15 @@ Ltac nd :=
   | |- nondec _ (setA _ _ _) _ => apply nondec_setA; [|try reflexivity; try (match goal with w : lst |- _ => destruct w; reflexivity end)]
   end.
 
-(* who pays in an operation *)
-Definition payer (o : op) : option Z :=
+(* the accounts an operation may take coins from: the target of a vote (the reward), the account that requested
+   the pending transfer (the pay-out), the sender of a send, both ends of an address rotation *)
+Definition payers (s : state) (o : op) : list Z :=
   match o with
-  | OApprove _ t _ | ODecline _ t _ | OConfirm _ t _ _ _ => Some t
-  | OSend s _ _ _ _ _ | OBank s _ _ _ | OMulti s _ _ => Some s
-  | _ => None
+  | OApprove _ t h | OConfirm _ t h _ _ => t :: match pending s t (to_lower h) with Some tx => [t_from tx] | None => [] end
+  | ODecline _ t _ => [t]
+  | OSend sg _ _ _ _ _ | OBank sg _ _ _ | OMulti sg _ _ => [sg]
+  | ORotate a nw _ => [a; nw]
+  | _ => []
   end.
 
 Lemma option_eq_dec : forall (a b : option Z), {a = b} + {a <> b}.
@@ -655,40 +651,79 @@ Variable v : variant.
 Variable H : string -> string.
 Variable minrew : Z.
 
-Lemma handle_nondec : forall s o s' x, handle v s o = Ok s' -> payer o <> Some x -> nondec s s' x.
+Lemma handle_nondec : forall s o s' x, handle v s o = Ok s' -> ~ In x (payers s o) -> nondec s s' x.
 Proof.
   intros s o s' x E Hp.
-  destruct o; simpl in E; simpl in Hp; unfold bind, rec_missing in E;
-    try (assert (Hx : x <> t) by congruence); try (assert (Hx : x <> sg) by congruence);
+  destruct o; simpl in Hp.
+  1-10, 12, 14-15:
+    simpl in E; unfold bind, rec_missing in E;
+    try (assert (Hx : x <> t) by (intro; apply Hp; left; auto)); try (assert (Hx : x <> sg) by (intro; apply Hp; left; auto));
     repeat (dmatch_in E; try discriminate); inversion E; subst; nd.
+  - (* approve *)
+    assert (Hx : x <> t) by (intro; apply Hp; left; auto).
+    simpl in E. unfold bind, rec_missing in E. unfold pending in Hp.
+    destruct (negb (voter_ok v (getA s t) f)); [discriminate|].
+    destruct (mark_get f t (mark_key v h) (marks s)); [inversion E; subst; nd|].
+    destruct (a_pool (getA s t)) as [p|]; [|discriminate].
+    destruct (pool_get (to_lower h) p) as [tx|]; [|discriminate].
+    assert (Hy : x <> t_from tx) by (intro; apply Hp; right; left; auto).
+    repeat (dmatch_in E; try discriminate); inversion E; subst; nd.
+  - (* confirm *)
+    assert (Hx : x <> t) by (intro; apply Hp; left; auto).
+    simpl in E. unfold bind, rec_missing in E. unfold pending in Hp.
+    destruct (a_pool (getA s t)) as [pl|]; [|repeat (dmatch_in E; try discriminate)].
+    destruct (pool_get (to_lower h) pl) as [tx|]; [|simpl in E; repeat (dmatch_in E; try discriminate)].
+    assert (Hy : x <> t_from tx) by (intro; apply Hp; right; left; auto).
+    simpl option_map in E. change (t_from (tx_conf tx true)) with (t_from tx) in E.
+    repeat (dmatch_in E; try discriminate); inversion E; subst; nd.
+  - (* rotation *)
+    assert (Hx : x <> a) by (intro; apply Hp; left; auto).
+    assert (Hy : x <> nw) by (intro; apply Hp; right; left; auto).
+    simpl in E. destruct (negb ok); [discriminate|]. inversion E; subst. clear E.
+    intros d. unfold getA at 2. simpl accts. unfold alist_get; fold (@alist_get acct).
+    destruct (x =? nw) eqn:E1; [lia|]. destruct (x =? a) eqn:E2; [lia|]. fold (getA s x). lia.
 Qed.
 
-Lemma step_nondec : forall s o s' x, step v H minrew s o = Ok s' -> payer o <> Some x -> nondec s s' x.
+Lemma step_nondec : forall s o s' x, step v H minrew s o = Ok s' -> ~ In x (payers s o) -> nondec s s' x.
 Proof.
   intros s o s' x E Hp. destruct (step_inv _ _ _ _ _ _ E) as (s1 & Ea & Eh).
-  pose proof (handle_nondec _ _ _ _ Eh Hp) as N. intros d. specialize (N d).
+  assert (Hp1 : ~ In x (payers s1 o)).
+  { destruct o; try exact Hp; apply ante_nonbank in Ea; try exact Logic.I; subst s1; exact Hp. }
+  pose proof (handle_nondec _ _ _ _ Eh Hp1) as N. intros d. specialize (N d).
   destruct (ante_fields _ _ _ _ _ _ x Ea) as (_ & _ & _ & _ & _ & Eb). rewrite Eb in N. exact N.
 Qed.
 
-(* coins never leave an account in a step in which it is not the payer: the outflow clause never fires *)
+(* coins never leave an account in a step in which it is not a payer: the outflow clause never fires *)
 Lemma out_sound : forall n s o s', step v H minrew s o = Ok s' -> out_clauses n s s' o = [].
 Proof.
   intros n s o s' E. unfold out_clauses. cbv zeta.
   induction (seq 0 n) as [|i l IH]; simpl; [reflexivity|]. rewrite IH, app_nil_r.
   destruct (guarded (getA s (Z.of_nat i)) && (0 <? n_cust (getA s (Z.of_nat i)))); simpl; [|reflexivity].
   destruct (dec (getA s (Z.of_nat i)) (getA s' (Z.of_nat i))) eqn:Ed; [|reflexivity].
-  assert (P : payer o = Some (Z.of_nat i)).
-  { destruct (option_eq_dec (payer o) (Some (Z.of_nat i))) as [P|P]; [exact P|].
+  assert (P : In (Z.of_nat i) (payers s o)).
+  { destruct (in_dec Z.eq_dec (Z.of_nat i) (payers s o)) as [P|P]; [exact P|].
     rewrite (dec_nondec _ _ _ (step_nondec _ _ _ _ E P)) in Ed. discriminate. }
-  destruct o; simpl in P; try discriminate; inversion P; subst; rewrite Z.eqb_refl; reflexivity.
+  destruct o; simpl in P; try contradiction.
+  - destruct P as [P|[]]. subst. rewrite Z.eqb_refl. reflexivity.
+  - (* approve: the target, or the requester of the pending transfer *)
+    destruct P as [P|P]; [subst; rewrite Z.eqb_refl; reflexivity|].
+    destruct (pending s t (to_lower h)) as [tx|]; [|destruct P]. destruct P as [P|[]]. rewrite P, Z.eqb_refl, orb_true_r. reflexivity.
+  - destruct P as [P|[]]. subst. rewrite Z.eqb_refl. reflexivity.
+  - destruct P as [P|P]; [subst; rewrite Z.eqb_refl; reflexivity|].
+    destruct (pending s t (to_lower h)) as [tx|]; [|destruct P]. destruct P as [P|[]]. rewrite P, Z.eqb_refl, orb_true_r. reflexivity.
+  - destruct P as [P|[]]. subst. rewrite Z.eqb_refl. reflexivity.
+  - destruct P as [P|[]]. subst. rewrite Z.eqb_refl. reflexivity.
+  - destruct P as [P|[P|[]]]; subst; rewrite Z.eqb_refl; try rewrite orb_true_r; reflexivity.
 Qed.
 End Outflow.
 
 (* ================================================================ 6. the invariant tying the checker's log to the model's state *)
+(* accounts touched by an address rotation are outside the vote guarantees (their marks stay behind or are
+   re-keyed, their pending transfers name another payer): the checker names their clauses "..._rotated" *)
 Definition log_marks (lg : log) (s : state) : Prop :=
-  forall f t h, in3 f t h (l_appr lg) || in3 f t h (l_decl lg) = true -> mark_get f t h (marks s) <> None.
+  forall f t h, rotated lg t = false -> in3 f t h (l_appr lg) || in3 f t h (l_decl lg) = true -> mark_get f t h (marks s) <> None.
 Definition log_votes (lg : log) (s : state) : Prop :=
-  forall t p h tx, pool_of s t = Some p -> pool_get h p = Some tx -> 0 <= t_votes tx <= count_appr t h (l_appr lg).
+  forall t p h tx, rotated lg t = false -> pool_of s t = Some p -> pool_get h p = Some tx -> 0 <= t_votes tx <= count_appr t h (l_appr lg).
 Definition log_conf (lg : log) (s : state) : Prop :=
   forall t p h tx, pool_of s t = Some p -> pool_get h p = Some tx -> t_conf tx = true -> in2 t h (l_conf lg) = true.
 Definition stat_inv (s : state) : Prop :=
@@ -697,15 +732,16 @@ Definition Inv (lg : log) (s : state) : Prop := log_marks lg s /\ log_votes lg s
 
 Definition log_le (lg lg1 : log) : Prop :=
   (forall t h, count_appr t h (l_appr lg) <= count_appr t h (l_appr lg1)) /\
-  (forall t h, in2 t h (l_conf lg) = true -> in2 t h (l_conf lg1) = true).
+  (forall t h, in2 t h (l_conf lg) = true -> in2 t h (l_conf lg1) = true) /\
+  (forall t, rotated lg1 t = false -> rotated lg t = false).
 Lemma log_le_refl : forall lg, log_le lg lg.
-Proof. intros; split; intros; auto; lia. Qed.
-Lemma log_le_appr : forall lg e, log_le lg (mkLog (e :: l_appr lg) (l_decl lg) (l_conf lg)).
-Proof. intros; split; simpl; intros; auto. apply count_appr_cons_ge. Qed.
-Lemma log_le_decl : forall lg e, log_le lg (mkLog (l_appr lg) (e :: l_decl lg) (l_conf lg)).
-Proof. intros; split; simpl; intros; auto. lia. Qed.
-Lemma log_le_conf : forall lg e, log_le lg (mkLog (l_appr lg) (l_decl lg) (e :: l_conf lg)).
-Proof. intros; split; simpl; intros; [lia|]. apply in2_cons; assumption. Qed.
+Proof. intros; split; [|split]; intros; auto; lia. Qed.
+Lemma log_le_appr : forall lg e, log_le lg (mkLog (e :: l_appr lg) (l_decl lg) (l_conf lg) (l_rot lg)).
+Proof. intros; split; [|split]; simpl; intros; auto. apply count_appr_cons_ge. Qed.
+Lemma log_le_decl : forall lg e, log_le lg (mkLog (l_appr lg) (e :: l_decl lg) (l_conf lg) (l_rot lg)).
+Proof. intros; split; [|split]; simpl; intros; auto. lia. Qed.
+Lemma log_le_conf : forall lg e, log_le lg (mkLog (l_appr lg) (l_decl lg) (e :: l_conf lg) (l_rot lg)).
+Proof. intros; split; [|split]; simpl; intros; auto; [lia|]. apply in2_cons; assumption. Qed.
 
 Lemma mark_get_cons_mono : forall f t h e l, mark_get f t h l <> None -> mark_get f t h (e :: l) <> None.
 Proof.
@@ -718,15 +754,16 @@ Qed.
 Lemma Inv_pool_update : forall lg lg1 s s' t p',
   Inv lg s -> log_le lg lg1 -> log_marks lg1 s' ->
   pool_of s' t = Some p' -> (forall u, u <> t -> pool_of s' u = pool_of s u) ->
-  (forall h tx, pool_get h p' = Some tx -> 0 <= t_votes tx <= count_appr t h (l_appr lg1) /\ (t_conf tx = true -> in2 t h (l_conf lg1) = true)) ->
+  (forall h tx, pool_get h p' = Some tx ->
+     (rotated lg1 t = false -> 0 <= t_votes tx <= count_appr t h (l_appr lg1)) /\ (t_conf tx = true -> in2 t h (l_conf lg1) = true)) ->
   (forall u, a_stat (getA s' u) = a_stat (getA s u)) ->
   Inv lg1 s'.
 Proof.
-  intros lg lg1 s s' t p' (I1 & I2 & I3 & I4) (L1 & L2) M Pt Po V S.
+  intros lg lg1 s s' t p' (I1 & I2 & I3 & I4) (L1 & L2 & L3) M Pt Po V S.
   split; [exact M|]. split; [|split].
-  - intros u q h tx Q1 Q2. destruct (Z.eq_dec u t) as [->|Hn].
-    + rewrite Pt in Q1. inversion Q1; subst. apply (V h tx Q2).
-    + rewrite Po in Q1 by assumption. specialize (I2 u q h tx Q1 Q2). specialize (L1 u h). lia.
+  - intros u q h tx R Q1 Q2. destruct (Z.eq_dec u t) as [->|Hn].
+    + rewrite Pt in Q1. inversion Q1; subst. apply (V h tx Q2). exact R.
+    + rewrite Po in Q1 by assumption. specialize (I2 u q h tx (L3 u R) Q1 Q2). specialize (L1 u h). lia.
   - intros u q h tx Q1 Q2 Q3. destruct (Z.eq_dec u t) as [->|Hn].
     + rewrite Pt in Q1. inversion Q1; subst. apply (V h tx Q2); assumption.
     + rewrite Po in Q1 by assumption. apply L2. exact (I3 u q h tx Q1 Q2 Q3).
@@ -738,36 +775,36 @@ Lemma Inv_same_pools : forall lg lg1 s s',
   Inv lg s -> log_le lg lg1 -> log_marks lg1 s' ->
   (forall u, pool_of s' u = pool_of s u) -> (forall u, a_stat (getA s' u) = a_stat (getA s u)) -> Inv lg1 s'.
 Proof.
-  intros lg lg1 s s' (I1 & I2 & I3 & I4) (L1 & L2) M P S.
+  intros lg lg1 s s' (I1 & I2 & I3 & I4) (L1 & L2 & L3) M P S.
   split; [exact M|]. split; [|split].
-  - intros u q h tx Q1 Q2. rewrite P in Q1. specialize (I2 u q h tx Q1 Q2). specialize (L1 u h). lia.
+  - intros u q h tx R Q1 Q2. rewrite P in Q1. specialize (I2 u q h tx (L3 u R) Q1 Q2). specialize (L1 u h). lia.
   - intros u q h tx Q1 Q2 Q3. rewrite P in Q1. apply L2. exact (I3 u q h tx Q1 Q2 Q3).
   - intros x st d a tm Q1 Q2. rewrite S in Q1. exact (I4 x st d a tm Q1 Q2).
 Qed.
 
 Lemma log_marks_same : forall lg s s', log_marks lg s -> marks s' = marks s -> log_marks lg s'.
-Proof. intros lg s s' M E f t h X. rewrite E. exact (M f t h X). Qed.
+Proof. intros lg s s' M E f t h R X. rewrite E. exact (M f t h R X). Qed.
 Lemma log_marks_cons : forall lg s s' e, log_marks lg s -> marks s' = e :: marks s -> log_marks lg s'.
-Proof. intros lg s s' e M E f t h X. rewrite E. apply mark_get_cons_mono. exact (M f t h X). Qed.
+Proof. intros lg s s' e M E f t h R X. rewrite E. apply mark_get_cons_mono. exact (M f t h R X). Qed.
 Lemma log_marks_appr : forall lg s s' f t h x, log_marks lg s -> marks s' = (f, t, h, x) :: marks s ->
-  log_marks (mkLog ((f, t, h) :: l_appr lg) (l_decl lg) (l_conf lg)) s'.
+  log_marks (mkLog ((f, t, h) :: l_appr lg) (l_decl lg) (l_conf lg) (l_rot lg)) s'.
 Proof.
-  intros lg s s' f t h x M E f' t' h' X. simpl in X. rewrite E.
+  intros lg s s' f t h x M E f' t' h' R X. simpl in X. rewrite E.
   apply orb_prop in X. destruct X as [X|X].
   - apply in3_cons_inv in X. destruct X as [(-> & -> & ->)|X].
     + rewrite mark_get_cons_same. discriminate.
-    + apply mark_get_cons_mono. apply M. rewrite X. reflexivity.
-  - apply mark_get_cons_mono. apply M. rewrite X. apply orb_true_r.
+    + apply mark_get_cons_mono. apply (M f' t' h' R). rewrite X. reflexivity.
+  - apply mark_get_cons_mono. apply (M f' t' h' R). rewrite X. apply orb_true_r.
 Qed.
 Lemma log_marks_decl : forall lg s s' f t h x, log_marks lg s -> marks s' = (f, t, h, x) :: marks s ->
-  log_marks (mkLog (l_appr lg) ((f, t, h) :: l_decl lg) (l_conf lg)) s'.
+  log_marks (mkLog (l_appr lg) ((f, t, h) :: l_decl lg) (l_conf lg) (l_rot lg)) s'.
 Proof.
-  intros lg s s' f t h x M E f' t' h' X. simpl in X. rewrite E.
+  intros lg s s' f t h x M E f' t' h' R X. simpl in X. rewrite E.
   apply orb_prop in X. destruct X as [X|X].
-  - apply mark_get_cons_mono. apply M. rewrite X. reflexivity.
+  - apply mark_get_cons_mono. apply (M f' t' h' R). rewrite X. reflexivity.
   - apply in3_cons_inv in X. destruct X as [(-> & -> & ->)|X].
     + rewrite mark_get_cons_same. discriminate.
-    + apply mark_get_cons_mono. apply M. rewrite X. apply orb_true_r.
+    + apply mark_get_cons_mono. apply (M f' t' h' R). rewrite X. apply orb_true_r.
 Qed.
 
 Lemma voted_refl : forall s, voted s s = false.
@@ -794,32 +831,32 @@ Proof.
   destruct (Z_lt_le_dec mode 0); nia.
 Qed.
 
-Lemma wl_lim_custody_residual : forall a to amt c, In c (wl_lim_clauses a to amt "custody_send") -> residual c = true.
-Proof.
-  intros a to amt c Hin. unfold wl_lim_clauses in Hin.
-  repeat match goal with
-  | X : In _ (_ ++ _) |- _ => apply in_app_or in X; destruct X as [X|X]
-  | X : In _ (if ?b then _ else _) |- _ => destruct b
-  | X : In _ (match ?x with _ => _ end) |- _ => destruct x
-  | X : In _ [] |- _ => destruct X
-  | X : In _ (_ :: _) |- _ => destruct X as [X|X]; [subst; reflexivity|]
-  end.
-Qed.
-Lemma path_multisend_residual : forall a to amt c, In c (path_clauses a to amt "multisend") -> residual c = true.
-Proof.
-  intros a to amt c Hin. unfold path_clauses, wl_lim_clauses in Hin.
-  repeat match goal with
-  | X : In _ (_ ++ _) |- _ => apply in_app_or in X; destruct X as [X|X]
-  | X : In _ (if ?b then _ else _) |- _ => destruct b
-  | X : In _ (match ?x with _ => _ end) |- _ => destruct x
-  | X : In _ [] |- _ => destruct X
-  | X : In _ (_ :: _) |- _ => destruct X as [X|X]; [subst; reflexivity|]
-  end.
-Qed.
+(* ---- the clauses a repaired tree may still produce: the design-level ones, and those of rotated accounts *)
+Definition starts_key (c : string) : bool :=
+  match c with String "k" (String "e" (String "y" (String ":" _))) => true | _ => false end.
+Definition residual (c : string) : bool :=
+  starts_key c ||
+  str_in c ["blocked:multisend"; "whitelist:multisend"; "limits:multisend"; "whitelist:custody_send"; "limits:custody_send";
+            "vote_once:approve_rotated"; "vote_once:decline_rotated";
+            "threshold:approve_rotated:nongenuine"; "threshold:approve_rotated:undercount";
+            "threshold:confirm_rotated:nongenuine"; "threshold:confirm_rotated:undercount"]%string.
 
-(* ================================================================ 7. soundness of the checker on the repaired variant, operation by operation *)
-Definition sound_step (n : nat) (lg : log) (s s' : state) (o : op) : Prop :=
-  (forall c, In c (fst (op_clauses n lg s s' o)) -> residual c = true) /\ Inv (snd (op_clauses n lg s s' o)) s'.
+Lemma residual_key : forall a b, residual (cl3 "key" a b) = true.
+Proof. intros. unfold residual, cl3. simpl. reflexivity. Qed.
+
+Ltac lit_res :=
+  repeat match goal with
+  | X : In _ (_ ++ _) |- _ => apply in_app_or in X; destruct X as [X|X]
+  | X : In _ (if ?b then _ else _) |- _ => destruct b
+  | X : In _ (match ?x with _ => _ end) |- _ => destruct x
+  | X : In _ [] |- _ => destruct X
+  | X : In _ (_ :: _) |- _ => destruct X as [X|X]; [subst; reflexivity|]
+  end.
+
+Lemma wl_lim_custody_residual : forall a to amt c, In c (wl_lim_clauses a to amt "custody_send") -> residual c = true.
+Proof. intros a to amt c Hin. unfold wl_lim_clauses in Hin. lit_res. Qed.
+Lemma path_multisend_residual : forall a to amt c, In c (path_clauses a to amt "multisend") -> residual c = true.
+Proof. intros a to amt c Hin. unfold path_clauses, wl_lim_clauses in Hin. lit_res. Qed.
 
 (* ---- the repaired limit path: what an accepted fold established *)
 Lemma limits_fold_ok : forall lims now cs st st',
@@ -861,6 +898,132 @@ Proof.
   pose proof (coins_sorted_pos _ _ _ E Hin). lia.
 Qed.
 
+(* ---- a vote never takes more than the voter's reward out of the paying account unless the transfer leaves the pool *)
+Lemma quot_bound : forall r n, 0 < n -> 0 <= Z.quot r n -> Z.quot r n <= Z.max 0 r.
+Proof.
+  intros r n Hn Hq. pose proof (Z.quot_rem' r n) as E.
+  destruct (Z_lt_le_dec r 0) as [Hr|Hr].
+  - assert (B : - n < Z.rem r n <= 0) by (apply Z.rem_bound_pos_neg; lia). nia.
+  - assert (B : 0 <= Z.rem r n < n) by (apply Z.rem_bound_pos; lia). nia.
+Qed.
+
+Lemma bal_sub_one : forall b rd q d, bal_get d (bal_sub b [(rd, q)]) = if d =? rd then bal_get rd b - q else bal_get d b.
+Proof. intros. unfold bal_sub. simpl. rewrite bal_get_map_set. simpl. destruct (d =? rd); reflexivity. Qed.
+
+Lemma send_reward_bound : forall s t f rd q r0 s1,
+  send s t f (one_coin rd q) = Ok s1 -> 0 <= q <= r0 ->
+  forall x d, bal_get d (a_bal (getA s x)) <= (if (x =? t) && (d =? rd) then r0 else 0) + bal_get d (a_bal (getA s1 x)).
+Proof.
+  intros s t f rd q r0 s1 E Hq x d. unfold one_coin in E. destruct (q =? 0) eqn:Eq0.
+  - (* nothing moves *)
+    unfold send in E. cbn [coins_valid negb can_pay forallb] in E. inversion E; subst. clear E.
+    unfold bal_sub, bal_add. cbn [fold_left].
+    assert (G : a_bal (getA (setA (setA s t (with_bal (getA s t) (a_bal (getA s t)))) f
+                  (with_bal (getA (setA s t (with_bal (getA s t) (a_bal (getA s t)))) f) (a_bal (getA (setA s t (with_bal (getA s t) (a_bal (getA s t)))) f)))) x)
+                = a_bal (getA s x)).
+    { rewrite getA_setA. destruct (x =? f) eqn:Ef.
+      - assert (x = f) by lia; subst. cbn [a_bal with_bal]. rewrite getA_setA. destruct (f =? t) eqn:Eft; [assert (f = t) by lia; subst|]; reflexivity.
+      - rewrite getA_setA. destruct (x =? t) eqn:Et; [assert (x = t) by lia; subst|]; reflexivity. }
+    rewrite G. destruct ((x =? t) && (d =? rd)); lia.
+  - unfold send in E. destruct (negb (coins_valid [(rd, q)])); [discriminate|].
+    destruct (can_pay (a_bal (getA s t)) [(rd, q)]); inversion E; subst. clear E.
+    set (A' := with_bal (getA s t) (bal_sub (a_bal (getA s t)) [(rd, q)])).
+    set (s0 := setA s t A').
+    rewrite getA_setA. destruct (x =? f) eqn:Ef.
+    + assert (x = f) by lia; subst x. cbn [a_bal with_bal].
+      assert (G : bal_get d (a_bal (getA s0 f)) <= bal_get d (bal_add (a_bal (getA s0 f)) [(rd, q)])).
+      { apply bal_add_ge. intros c [<-|[]]. simpl. lia. }
+      assert (G2 : bal_get d (a_bal (getA s f)) <= (if (f =? t) && (d =? rd) then r0 else 0) + bal_get d (a_bal (getA s0 f))).
+      { unfold s0. rewrite getA_setA. destruct (f =? t) eqn:Eft.
+        - assert (f = t) by lia; subst f. unfold A'. cbn [a_bal with_bal]. rewrite ?bal_sub_one, ?bal_get_map_set. simpl andb.
+          destruct (d =? rd) eqn:Ed; [assert (d = rd) by lia; subst d|]; lia.
+        - simpl andb; cbv iota; lia. }
+      eapply Z.le_trans; [exact G2|]. apply Zplus_le_compat_l. exact G.
+    + unfold s0. rewrite getA_setA. destruct (x =? t) eqn:Et.
+      * assert (x = t) by lia; subst x. unfold A'. cbn [a_bal with_bal]. rewrite ?bal_sub_one, ?bal_get_map_set. simpl andb.
+        destruct (d =? rd) eqn:Ed; [assert (d = rd) by lia; subst d|]; lia.
+      * simpl andb; cbv iota; lia.
+Qed.
+
+Lemma paid_refl : forall s t h, paid_without_release s s t h = false.
+Proof.
+  intros. unfold paid_without_release. destruct (released s s t h); [reflexivity|].
+  apply Bool.not_true_is_false. intros E. apply existsb_exists in E. destruct E as (d & _ & E).
+  destruct (pending s t h) as [tx|].
+  - destruct (t_from tx =? t); destruct (t_rew tx) as [|[rd r] rr];
+      repeat match type of E with context [if ?c then _ else _] => destruct c end; lia.
+  - repeat match type of E with context [if ?c then _ else _] => destruct c end; lia.
+Qed.
+
+(* after a vote whose only transfer was the reward share out of [t] *)
+Lemma paid_reward_only : forall s s' t h p tx rd r0 rr q,
+  pool_of s t = Some p -> pool_get h p = Some tx -> t_rew tx = (rd, r0) :: rr -> 0 <= q <= Z.max 0 r0 ->
+  (forall x d, bal_get d (a_bal (getA s x)) <= (if (x =? t) && (d =? rd) then Z.max 0 r0 else 0) + bal_get d (a_bal (getA s' x))) ->
+  paid_without_release s s' t h = false.
+Proof.
+  intros s s' t h p tx rd r0 rr q Hp Hg Hr Hq B. unfold paid_without_release.
+  destruct (released s s' t h); [reflexivity|].
+  unfold pending. unfold pool_of in Hp. rewrite Hp, Hg, Hr.
+  apply Bool.not_true_is_false. intros E. apply existsb_exists in E. destruct E as (d & _ & E).
+  specialize (B (t_from tx) d). destruct (t_from tx =? t) eqn:Ef; simpl andb in B; cbv iota in B; destruct (d =? rd); lia.
+Qed.
+
+(* ================================================================ 7. soundness of the checker on the repaired variant, operation by operation *)
+Definition sound_step (n : nat) (lg : log) (s s' : state) (o : op) : Prop :=
+  (forall c, In c (fst (op_clauses n lg s s s' o)) -> residual c = true) /\ Inv (snd (op_clauses n lg s s s' o)) s'.
+
+Lemma release_clauses_ok : forall lg s t h tx V kind,
+  (rotated lg t = false /\ 0 <= V /\ V <= count_appr t h (l_appr lg) /\
+   (forall st, a_set (getA s t) = Some st -> s_en st = true -> 0 < n_cust (getA s t) ->
+      exists c, a_cust (getA s t) = Some c /\ 0 < map_len c /\ s_mode st <= Z.quot (V * 100) (map_len c)))
+  \/ kind = "approve_rotated"%string \/ kind = "confirm_rotated"%string ->
+  (forall st, a_set (getA s t) = Some st -> s_pwd st = true -> in2 t h (l_conf lg) = true) ->
+  forall x, In x (release_clauses lg s t h tx V kind) -> residual x = true.
+Proof.
+  intros lg s t h tx V kind HT HP x Hin.
+  unfold release_clauses in Hin. cbv zeta in Hin.
+  apply in_app_or in Hin. destruct Hin as [Hin|Hin].
+  - destruct HT as [(Hr & HV & Hcnt & HC)|HK].
+    + exfalso. unfold guarded in Hin. destruct (a_set (getA s t)) as [st|] eqn:Hs; [|destruct Hin].
+      destruct (s_en st) eqn:He; [|destruct Hin]. simpl andb in Hin.
+      destruct (0 <? n_cust (getA s t)) eqn:Hnc; [|destruct Hin].
+      destruct (HC st eq_refl He ltac:(apply Z.ltb_lt; exact Hnc)) as (c & Hc & Hn & Hm).
+      rewrite (threshold_ok (s_mode st) V (map_len c) (n_cust (getA s t)) (count_appr t h (l_appr lg))) in Hin; auto.
+      split; [apply n_cust_nonneg|apply n_cust_le_map_len; assumption].
+    + destruct HK; subst kind; lit_res.
+  - apply in_app_or in Hin. destruct Hin as [Hin|Hin].
+    + exfalso. unfold flag in Hin. destruct (a_set (getA s t)) as [st|] eqn:Hs; [|destruct Hin].
+      destruct (s_pwd st) eqn:Hw; [|destruct Hin]. rewrite (HP st eq_refl Hw) in Hin. destruct Hin.
+    + eapply wl_lim_custody_residual; eauto.
+Qed.
+
+(* the invariant after an approval that took effect: the pool of [t] lost the transfer or counts one more vote *)
+Lemma approve_inv : forall lg lg1 s s' f t h p tx p',
+  Inv lg s -> pool_of s t = Some p -> pool_get h p = Some tx ->
+  marks s' = (f, t, h, 1) :: marks s -> pool_of s' t = Some p' -> (forall u, u <> t -> pool_of s' u = pool_of s u) ->
+  (forall u, a_stat (getA s' u) = a_stat (getA s u)) ->
+  p' = pool_del h p \/ p' = pool_set h (tx_votes tx (t_votes tx + 1)) p ->
+  lg1 = mkLog ((f, t, h) :: l_appr lg) (l_decl lg) (l_conf lg) (l_rot lg) \/ (lg1 = lg /\ rotated lg t = true) ->
+  Inv lg1 s'.
+Proof.
+  intros lg lg1 s s' f t h p tx p' I Hp Hg Mk Pt Po St Hp' Hl. pose proof I as (I1 & I2 & I3 & I4).
+  assert (LE : log_le lg lg1) by (destruct Hl as [->|[-> _]]; [apply log_le_appr|apply log_le_refl]).
+  assert (LM : log_marks lg1 s') by (destruct Hl as [->|[-> _]]; [eapply log_marks_appr; eauto|eapply log_marks_cons; eauto]).
+  apply (Inv_pool_update lg lg1 s s' t p' I LE LM Pt Po); [|exact St].
+  intros h' tx' Q.
+  assert (Cf : forall y, pool_get h' p = Some y -> t_conf y = true -> in2 t h' (l_conf lg1) = true).
+  { intros y Qy Cy. destruct LE as (_ & L2 & _). apply L2. exact (I3 t p h' y Hp Qy Cy). }
+  assert (Vt : forall y, pool_get h' p = Some y -> rotated lg1 t = false -> 0 <= t_votes y <= count_appr t h' (l_appr lg1)).
+  { intros y Qy R. destruct LE as (L1 & _ & L3). destruct (I2 t p h' y (L3 t R) Hp Qy) as [A B]. specialize (L1 t h'). lia. }
+  destruct Hp' as [->| ->].
+  - apply pool_get_del_some in Q. split; [exact (Vt tx' Q)|exact (Cf tx' Q)].
+  - rewrite pool_get_set in Q. destruct (String.eqb h' h) eqn:Eh.
+    + apply String.eqb_eq in Eh; subst h'. inversion Q; subst tx'. unfold tx_votes. cbn [t_votes t_conf]. split; [|exact (Cf tx Hg)].
+      intros R. destruct Hl as [->|[-> Hr]]; [|simpl in R; congruence].
+      simpl l_appr. rewrite count_appr_cons_hit. simpl in R. destruct (I2 t p h tx R Hp Hg) as [A B]. lia.
+    + split; [exact (Vt tx' Q)|exact (Cf tx' Q)].
+Qed.
+
 Section Sound.
 Variable v : variant.
 Hypothesis Hco : v_cust_only v = true.
@@ -869,26 +1032,11 @@ Hypothesis Hpw : v_pwd v = true.
 Variable H : string -> string.
 Variable minrew : Z.
 
-Lemma release_clauses_ok : forall lg s t h tx V kind,
-  0 <= V -> V <= count_appr t h (l_appr lg) ->
-  (forall st, a_set (getA s t) = Some st -> s_en st = true -> 0 < n_cust (getA s t) ->
-     exists c, a_cust (getA s t) = Some c /\ 0 < map_len c /\ s_mode st <= Z.quot (V * 100) (map_len c)) ->
-  (forall st, a_set (getA s t) = Some st -> s_pwd st = true -> in2 t h (l_conf lg) = true) ->
-  forall x, In x (release_clauses lg s t h tx V kind) -> residual x = true.
+Lemma approve_noop_sound : forall n lg s f t hraw,
+  Inv lg s -> is_custodian (getA s t) f = true -> sound_step n lg s s (OApprove f t hraw).
 Proof.
-  intros lg s t h tx V kind HV Hcnt HC HP x Hin.
-  unfold release_clauses in Hin. cbv zeta in Hin.
-  apply in_app_or in Hin. destruct Hin as [Hin|Hin].
-  - exfalso. unfold guarded in Hin. destruct (a_set (getA s t)) as [st|] eqn:Hs; [|destruct Hin].
-    destruct (s_en st) eqn:He; [|destruct Hin]. simpl andb in Hin.
-    destruct (0 <? n_cust (getA s t)) eqn:Hnc; [|destruct Hin].
-    destruct (HC st eq_refl He ltac:(apply Z.ltb_lt; exact Hnc)) as (c & Hc & Hn & Hm).
-    rewrite (threshold_ok (s_mode st) V (map_len c) (n_cust (getA s t)) (count_appr t h (l_appr lg))) in Hin; auto.
-    split; [apply n_cust_nonneg|apply n_cust_le_map_len; assumption].
-  - apply in_app_or in Hin. destruct Hin as [Hin|Hin].
-    + exfalso. unfold flag in Hin. destruct (a_set (getA s t)) as [st|] eqn:Hs; [|destruct Hin].
-      destruct (s_pwd st) eqn:Hw; [|destruct Hin]. rewrite (HP st eq_refl Hw) in Hin. destruct Hin.
-    + eapply wl_lim_custody_residual; eauto.
+  intros n lg s f t hraw I Hisc. unfold sound_step, op_clauses. cbv zeta.
+  rewrite Hisc, voted_refl, !andb_false_r, paid_refl, released_same_pool by reflexivity. simpl. split; [intros x []|exact I].
 Qed.
 
 Lemma sound_approve : forall n lg s f t hraw s',
@@ -899,353 +1047,79 @@ Proof.
   destruct (a_cust (getA s t)) as [c|] eqn:Hc; [|discriminate].
   destruct (bool_at f c) eqn:Hb; [|discriminate]. simpl negb in E. cbv iota in E.
   pose proof (bool_at_is_custodian _ _ _ Hc Hb) as Hisc.
-  unfold sound_step, op_clauses. cbv zeta. rewrite Hisc. simpl negb. simpl andb.
-  destruct (mark_get f t (to_lower hraw) (marks s)) eqn:Hm.
-  - (* already marked: nothing happens *)
-    inversion E; subst s'. rewrite voted_refl, !andb_false_r, released_same_pool by reflexivity.
-    split; [intros c0 []|exact I].
-  - destruct (in3 f t (to_lower hraw) (l_appr lg) || in3 f t (to_lower hraw) (l_decl lg)) eqn:Hd;
-      [exfalso; exact (I1 _ _ _ Hd Hm)|].
-    destruct (a_pool (getA s t)) as [p|] eqn:Hp; [|discriminate].
-    destruct (pool_get (to_lower hraw) p) as [tx|] eqn:Hg; [|discriminate].
-    destruct (t_rew tx) as [|[rd r0] rr]; [discriminate|].
-    destruct (map_len c =? 0) eqn:En; [discriminate|].
-    destruct (Z.quot r0 (map_len c) <? 0); [discriminate|].
-    destruct (send s t f (one_coin rd (Z.quot r0 (map_len c)))) as [s1| |] eqn:E1; try discriminate.
-    assert (Hn : 0 < map_len c) by (clear - En; unfold map_len in *; lia).
-    destruct (I2 t p (to_lower hraw) tx Hp Hg) as [Hv0 Hv1].
-    assert (HV1 : 0 <= t_votes tx + 1) by (clear - Hv0; lia).
-    set (lg1 := mkLog ((f, t, to_lower hraw) :: l_appr lg) (l_decl lg) (l_conf lg)).
-    assert (Hcnt : t_votes tx + 1 <= count_appr t (to_lower hraw) (l_appr lg1)).
-    { unfold lg1. simpl l_appr. rewrite count_appr_cons_hit. clear - Hv1. lia. }
-    match type of E with (if ?b then _ else _) = _ => destruct b eqn:Eb end.
-    + (* paid out *)
-      destruct (send (add_mark s1 f t (to_lower hraw) 1) t (t_to tx) (t_amt tx)) as [s3| |] eqn:E3; try discriminate.
-      inversion E; subst s'. clear E.
-      assert (Mk : marks (store_pool s3 t (pool_del (to_lower hraw) p)) = (f, t, to_lower hraw, 1) :: marks s).
-      { rewrite store_pool_marks, (send_marks _ _ _ _ _ E3). simpl. rewrite (send_marks _ _ _ _ _ E1). reflexivity. }
-      assert (Po : forall u, u <> t -> pool_of (store_pool s3 t (pool_del (to_lower hraw) p)) u = pool_of s u).
-      { intros u Hu. rewrite pool_of_store_other by assumption. unfold pool_of.
-        rewrite (proj1 (send_frame _ _ _ _ _ E3 u)), add_mark_frame, (proj1 (send_frame _ _ _ _ _ E1 u)). reflexivity. }
-      assert (St : forall u, a_stat (getA (store_pool s3 t (pool_del (to_lower hraw) p)) u) = a_stat (getA s u)).
-      { intros u. rewrite stat_store_pool, (proj2 (send_frame _ _ _ _ _ E3 u)), add_mark_frame, (proj2 (send_frame _ _ _ _ _ E1 u)). reflexivity. }
-      rewrite (voted_cons _ _ _ Mk). simpl andb. cbv iota.
-      rewrite (released_gone s _ t (to_lower hraw) p tx _ Hp Hg (pool_of_store_same _ _ _) (pool_get_del_same _ _)).
-      simpl fst. simpl snd. fold lg1. split.
-      * intros x Hin. simpl in Hin.
-        apply (release_clauses_ok lg1 s t (to_lower hraw) tx (t_votes tx + 1) "approve" HV1 Hcnt); [| |exact Hin].
-        -- intros st Hs He _. exists c. split; [exact Hc|]. split; [exact Hn|]. rewrite Hs, He in Eb. assert (X : 0 <? map_len c = true) by (apply Z.ltb_lt; exact Hn). rewrite X in Eb. simpl andb in Eb.
-           apply andb_prop in Eb. destruct Eb as [Eb _]. apply Z.leb_le in Eb. exact Eb.
-        -- intros st Hs Hw. rewrite Hs, Hw in Eb. apply andb_prop in Eb. destruct Eb as [_ Eb].
-           unfold lg1. simpl l_conf. exact (I3 t p (to_lower hraw) tx Hp Hg Eb).
-      * apply (Inv_pool_update lg lg1 s _ t (pool_del (to_lower hraw) p) I (log_le_appr _ _) (log_marks_appr _ _ _ _ _ _ _ I1 Mk)
-                 (pool_of_store_same _ _ _) Po); [|exact St].
-        intros h' tx' Q. apply pool_get_del_some in Q. destruct (I2 t p h' tx' Hp Q) as [A B]. split.
-        -- pose proof (count_appr_cons_ge t h' (f, t, to_lower hraw) (l_appr lg)) as G. unfold lg1; simpl l_appr. clear - A B G. lia.
-        -- intros Cf. unfold lg1; simpl l_conf. exact (I3 t p h' tx' Hp Q Cf).
-    + (* counted, not yet paid out *)
-      inversion E; subst s'. clear E.
-      set (tx1 := tx_votes tx (t_votes tx + 1)).
-      assert (Mk : marks (store_pool (add_mark s1 f t (to_lower hraw) 1) t (pool_set (to_lower hraw) tx1 p)) = (f, t, to_lower hraw, 1) :: marks s).
-      { rewrite store_pool_marks. simpl. rewrite (send_marks _ _ _ _ _ E1). reflexivity. }
-      assert (Po : forall u, u <> t -> pool_of (store_pool (add_mark s1 f t (to_lower hraw) 1) t (pool_set (to_lower hraw) tx1 p)) u = pool_of s u).
-      { intros u Hu. rewrite pool_of_store_other by assumption. unfold pool_of.
-        rewrite add_mark_frame, (proj1 (send_frame _ _ _ _ _ E1 u)). reflexivity. }
-      assert (St : forall u, a_stat (getA (store_pool (add_mark s1 f t (to_lower hraw) 1) t (pool_set (to_lower hraw) tx1 p)) u) = a_stat (getA s u)).
-      { intros u. rewrite stat_store_pool, add_mark_frame, (proj2 (send_frame _ _ _ _ _ E1 u)). reflexivity. }
-      rewrite (voted_cons _ _ _ Mk). simpl andb. cbv iota.
-      rewrite (released_present s _ t (to_lower hraw) _ tx1 (pool_of_store_same _ _ _)) by (rewrite pool_get_set, String.eqb_refl; reflexivity).
-      simpl fst. simpl snd. fold lg1. split; [intros x []|].
-      apply (Inv_pool_update lg lg1 s _ t (pool_set (to_lower hraw) tx1 p) I (log_le_appr _ _) (log_marks_appr _ _ _ _ _ _ _ I1 Mk)
-               (pool_of_store_same _ _ _) Po); [|exact St].
-      intros h' tx' Q. rewrite pool_get_set in Q. destruct (String.eqb h' (to_lower hraw)) eqn:Eh.
-      * apply String.eqb_eq in Eh; subst h'. inversion Q; subst tx'. unfold tx1, tx_votes. cbn [t_votes t_conf].
-        split; [exact (conj HV1 Hcnt)|]. intros Cf. exact (I3 t p (to_lower hraw) tx Hp Hg Cf).
-      * destruct (I2 t p h' tx' Hp Q) as [A B]. split.
-        -- pose proof (count_appr_cons_ge t h' (f, t, to_lower hraw) (l_appr lg)) as G. unfold lg1; simpl l_appr. clear - A B G. lia.
-        -- intros Cf. unfold lg1; simpl l_conf. exact (I3 t p h' tx' Hp Q Cf).
-Qed.
-
-Lemma decline_noop_sound : forall n lg s f t hraw,
-  Inv lg s -> is_custodian (getA s t) f = true -> sound_step n lg s s (ODecline f t hraw).
-Proof.
-  intros n lg s f t hraw I Hisc. unfold sound_step, op_clauses. cbv zeta.
-  rewrite Hisc, voted_refl, !andb_false_r, released_same_pool by reflexivity. simpl. split; [intros x []|exact I].
-Qed.
-
-Lemma sound_decline : forall n lg s f t hraw s',
-  Inv lg s -> handle v s (ODecline f t hraw) = Ok s' -> sound_step n lg s s' (ODecline f t hraw).
-Proof.
-  intros n lg s f t hraw s' I E. pose proof I as (I1 & I2 & I3 & I4).
-  simpl in E. unfold voter_ok, mark_key in E. rewrite Hco, Hlo in E. unfold bind in E.
-  destruct (a_cust (getA s t)) as [c|] eqn:Hc; [|discriminate].
-  destruct (bool_at f c) eqn:Hb; [|discriminate]. simpl negb in E. cbv iota in E.
-  pose proof (bool_at_is_custodian _ _ _ Hc Hb) as Hisc.
-  destruct (mark_get f t (to_lower hraw) (marks s)) eqn:Hm; [inversion E; subst; apply decline_noop_sound; assumption|].
-  repeat (dmatch_in E; try discriminate); try (inversion E; subst; apply decline_noop_sound; assumption).
-  assert (Mk : marks s' = (f, t, to_lower hraw, -1) :: marks s) by (rewrite (send_marks _ _ _ _ _ E); reflexivity).
-  assert (Po : forall u, pool_of s' u = pool_of s u).
-  { intros u. unfold pool_of. rewrite (proj1 (send_frame _ _ _ _ _ E u)). reflexivity. }
-  assert (St : forall u, a_stat (getA s' u) = a_stat (getA s u)).
-  { intros u. rewrite (proj2 (send_frame _ _ _ _ _ E u)). reflexivity. }
-  unfold sound_step, op_clauses. cbv zeta. rewrite Hisc. simpl negb. simpl andb.
-  destruct (in3 f t (to_lower hraw) (l_appr lg) || in3 f t (to_lower hraw) (l_decl lg)) eqn:Hd;
-    [exfalso; exact (I1 _ _ _ Hd Hm)|].
-  rewrite (voted_cons _ _ _ Mk), (released_same_pool s s' t _ (Po t)). simpl.
-  split; [intros x []|].
-  exact (Inv_same_pools lg _ s s' I (log_le_decl _ _) (log_marks_decl _ _ _ _ _ _ _ I1 Mk) Po St).
-Qed.
-
-Lemma sound_confirm : forall n lg s f t hraw pw ph s',
-  Inv lg s -> handle v s (OConfirm f t hraw pw ph) = Ok s' -> sound_step n lg s s' (OConfirm f t hraw pw ph).
-Proof.
-  intros n lg s f t hraw pw ph s' I E. pose proof I as (I1 & I2 & I3 & I4).
-  simpl in E. rewrite Hpw in E. unfold bind, rec_missing in E.
-  destruct (a_pool (getA s t)) as [p|] eqn:Hp; [|repeat (dmatch_in E; try discriminate)].
-  destruct (pool_get (to_lower hraw) p) as [tx|] eqn:Hg; [|simpl in E; repeat (dmatch_in E; try discriminate)].
-  simpl andb in E. destruct (String.eqb pw (t_pw tx)) eqn:Epw; simpl negb in E; cbv iota in E; [|discriminate].
-  simpl option_map in E.
-  destruct (I2 t p (to_lower hraw) tx Hp Hg) as [Hv0 Hv1].
-  set (lg1 := mkLog (l_appr lg) (l_decl lg) ((t, to_lower hraw) :: l_conf lg)).
-  set (r := tx_conf tx true) in *.
-  unfold sound_step, op_clauses. cbv zeta. rewrite Hp, Hg, Epw. simpl orb. cbv iota. fold lg1.
-  match type of E with (match ?a with _ => _ end) = _ => destruct a as [allowC| |] eqn:EC; try discriminate end.
-  match type of E with (match ?a with _ => _ end) = _ => destruct a as [allowP| |] eqn:EP; try discriminate end.
-  destruct (allowC && allowP) eqn:Eb.
+  destruct (mark_get f t (to_lower hraw) (marks s)) eqn:Hm; [inversion E; subst s'; apply approve_noop_sound; assumption|].
+  destruct (a_pool (getA s t)) as [p|] eqn:Hp; [|discriminate].
+  destruct (pool_get (to_lower hraw) p) as [tx|] eqn:Hg; [|discriminate].
+  destruct (t_rew tx) as [|[rd r0] rr] eqn:Hrw; [discriminate|].
+  destruct (map_len c =? 0) eqn:En; [discriminate|].
+  destruct (Z.quot r0 (map_len c) <? 0) eqn:Eq; [discriminate|].
+  destruct (send s t f (one_coin rd (Z.quot r0 (map_len c)))) as [s1| |] eqn:E1; try discriminate.
+  assert (Hn : 0 < map_len c) by (clear - En; unfold map_len in *; lia).
+  assert (Hq : 0 <= Z.quot r0 (map_len c) <= Z.max 0 r0) by (split; [clear - Eq; lia|apply quot_bound; [exact Hn|clear - Eq; lia]]).
+  pose proof (send_reward_bound _ _ _ _ _ _ _ E1 Hq) as B1.
+  set (h := to_lower hraw) in *.
+  set (lgc := mkLog ((f, t, h) :: l_appr lg) (l_decl lg) (l_conf lg) (l_rot lg)).
+  unfold sound_step, op_clauses. cbv zeta. fold h. rewrite Hisc. simpl negb. simpl andb.
+  (* the log after the step, whatever the case *)
+  assert (HL : forall vt, vt = true ->
+     let lg1 := (if negb (in3 f t h (l_appr lg) || in3 f t h (l_decl lg)) && vt then lgc else lg) in
+     (lg1 = lgc \/ (lg1 = lg /\ rotated lg t = true)) /\
+     (forall x, In x (if (in3 f t h (l_appr lg) || in3 f t h (l_decl lg)) && vt then [cl "vote_once" (if rotated lg t then "approve_rotated" else "approve")] else []) -> residual x = true)).
+  { intros vt ->. cbv zeta. destruct (in3 f t h (l_appr lg) || in3 f t h (l_decl lg)) eqn:Hd; simpl.
+    - destruct (rotated lg t) eqn:Hr; [|exfalso; exact (I1 _ _ _ Hr Hd Hm)].
+      split; [right; auto|]. intros x [<-|[]]. reflexivity.
+    - split; [left; reflexivity|intros x []]. }
+  match type of E with (if ?b then _ else _) = _ => destruct b eqn:Eb end.
   - (* paid out *)
-    destruct (send s t (t_to r) (t_amt r)) as [s1| |] eqn:E1; try discriminate.
+    destruct (send (add_mark s1 f t h 1) (t_from tx) (t_to tx) (t_amt tx)) as [s3| |] eqn:E3; try discriminate.
     inversion E; subst s'. clear E.
-    assert (Mk : marks (store_pool s1 t (pool_del (to_lower hraw) p)) = marks s).
-    { rewrite store_pool_marks. exact (send_marks _ _ _ _ _ E1). }
-    assert (Po : forall u, u <> t -> pool_of (store_pool s1 t (pool_del (to_lower hraw) p)) u = pool_of s u).
-    { intros u Hu. rewrite pool_of_store_other by assumption. unfold pool_of. rewrite (proj1 (send_frame _ _ _ _ _ E1 u)). reflexivity. }
-    assert (St : forall u, a_stat (getA (store_pool s1 t (pool_del (to_lower hraw) p)) u) = a_stat (getA s u)).
-    { intros u. rewrite stat_store_pool, (proj2 (send_frame _ _ _ _ _ E1 u)). reflexivity. }
-    rewrite (released_gone s _ t (to_lower hraw) p tx _ Hp Hg (pool_of_store_same _ _ _) (pool_get_del_same _ _)).
+    assert (Mk : marks (store_pool s3 t (pool_del h p)) = (f, t, h, 1) :: marks s).
+    { rewrite store_pool_marks, (send_marks _ _ _ _ _ E3). simpl. rewrite (send_marks _ _ _ _ _ E1). reflexivity. }
+    assert (Po : forall u, u <> t -> pool_of (store_pool s3 t (pool_del h p)) u = pool_of s u).
+    { intros u Hu. rewrite pool_of_store_other by assumption. unfold pool_of.
+      rewrite (proj1 (send_frame _ _ _ _ _ E3 u)), add_mark_frame, (proj1 (send_frame _ _ _ _ _ E1 u)). reflexivity. }
+    assert (St : forall u, a_stat (getA (store_pool s3 t (pool_del h p)) u) = a_stat (getA s u)).
+    { intros u. rewrite stat_store_pool, (proj2 (send_frame _ _ _ _ _ E3 u)), add_mark_frame, (proj2 (send_frame _ _ _ _ _ E1 u)). reflexivity. }
+    pose proof (released_gone s _ t h p tx _ Hp Hg (pool_of_store_same _ _ _) (pool_get_del_same _ _)) as Rl.
+    assert (Pd : paid_without_release s (store_pool s3 t (pool_del h p)) t h = false) by (unfold paid_without_release; rewrite Rl; reflexivity).
+    rewrite (voted_cons _ _ _ Mk), Pd, Rl. rewrite !andb_true_r.
+    destruct (HL true eq_refl) as [HL1 HL2]. rewrite andb_true_r in HL1, HL2.
+    set (lg1 := if negb (in3 f t h (l_appr lg) || in3 f t h (l_decl lg)) then lgc else lg) in *.
     simpl fst. simpl snd. split.
-    + intros x Hin. simpl in Hin.
-      apply (release_clauses_ok lg1 s t (to_lower hraw) tx (t_votes tx) "confirm" Hv0 Hv1); [| |exact Hin].
-      * intros st Hs He Hnc. rewrite Hs, He in EC.
-        destruct (a_cust (getA s t)) as [c|] eqn:Hc; [|discriminate].
-        pose proof (n_cust_le_map_len _ _ Hc) as Hle.
-        assert (X : 0 <? map_len c = true) by (apply Z.ltb_lt; clear - Hle Hnc; lia). rewrite X in EC.
-        inversion EC; subst allowC. apply andb_prop in Eb. destruct Eb as [Eb _]. apply Z.leb_le in Eb.
-        exists c. split; [reflexivity|]. split; [apply Z.ltb_lt; exact X|exact Eb].
-      * intros st Hs Hw. unfold lg1. simpl l_conf. apply in2_cons_same.
-    + apply (Inv_pool_update lg lg1 s _ t (pool_del (to_lower hraw) p) I (log_le_conf _ _) (log_marks_same lg1 s _ I1 Mk)
-               (pool_of_store_same _ _ _) Po); [|exact St].
-      intros h' tx' Q. apply pool_get_del_some in Q. destruct (I2 t p h' tx' Hp Q) as [A B]. split; [exact (conj A B)|].
-      intros Cf. unfold lg1; simpl l_conf. apply in2_cons. exact (I3 t p h' tx' Hp Q Cf).
-  - (* confirmed, not yet paid out *)
+    + intros x Hin. apply in_app_or in Hin. destruct Hin as [Hin|Hin]; [exact (HL2 x Hin)|]. simpl app in Hin.
+      apply (release_clauses_ok lg1 s t h tx (t_votes tx + 1) (if rotated lg t then "approve_rotated" else "approve")); [| |exact Hin].
+      * destruct (rotated lg t) eqn:Hr; [right; left; reflexivity|left].
+        destruct HL1 as [HL1|[_ HL1]]; [|congruence]. destruct (I2 t p h tx Hr Hp Hg) as [Hv0 Hv1].
+        split; [rewrite HL1; exact Hr|]. split; [clear - Hv0; lia|]. split.
+        -- rewrite HL1. simpl l_appr. rewrite count_appr_cons_hit. clear - Hv1. lia.
+        -- intros st Hs He _. exists c. split; [exact Hc|]. split; [exact Hn|]. rewrite Hs, He in Eb.
+           assert (X : 0 <? map_len c = true) by (apply Z.ltb_lt; exact Hn). rewrite X in Eb. simpl andb in Eb.
+           apply andb_prop in Eb. destruct Eb as [Eb _]. apply Z.leb_le in Eb. exact Eb.
+      * intros st Hs Hw. rewrite Hs, Hw in Eb. apply andb_prop in Eb. destruct Eb as [_ Eb].
+        assert (Y : in2 t h (l_conf lg) = true) by exact (I3 t p h tx Hp Hg Eb).
+        destruct HL1 as [->|[-> _]]; exact Y.
+    + exact (approve_inv lg lg1 s _ f t h p tx _ I Hp Hg Mk (pool_of_store_same _ _ _) Po St (or_introl eq_refl) HL1).
+  - (* counted, not yet paid out *)
     inversion E; subst s'. clear E.
-    assert (Po : forall u, u <> t -> pool_of (store_pool s t (pool_set (to_lower hraw) r p)) u = pool_of s u).
-    { intros u Hu. rewrite pool_of_store_other by assumption. reflexivity. }
-    rewrite (released_present s _ t (to_lower hraw) _ r (pool_of_store_same _ _ _)) by (rewrite pool_get_set, String.eqb_refl; reflexivity).
-    simpl fst. simpl snd. split; [intros x []|].
-    apply (Inv_pool_update lg lg1 s _ t (pool_set (to_lower hraw) r p) I (log_le_conf _ _) (log_marks_same lg1 s _ I1 (store_pool_marks _ _ _))
-             (pool_of_store_same _ _ _) Po); [|intros u; apply stat_store_pool].
-    intros h' tx' Q. rewrite pool_get_set in Q. destruct (String.eqb h' (to_lower hraw)) eqn:Eh.
-    + apply String.eqb_eq in Eh; subst h'. inversion Q; subst tx'. unfold r, tx_conf. cbn [t_votes t_conf].
-      split; [exact (conj Hv0 Hv1)|]. intros _. unfold lg1. simpl l_conf. apply in2_cons_same.
-    + destruct (I2 t p h' tx' Hp Q) as [A B]. split; [exact (conj A B)|].
-      intros Cf. unfold lg1; simpl l_conf. apply in2_cons. exact (I3 t p h' tx' Hp Q Cf).
+    set (tx1 := tx_votes tx (t_votes tx + 1)).
+    assert (Mk : marks (store_pool (add_mark s1 f t h 1) t (pool_set h tx1 p)) = (f, t, h, 1) :: marks s).
+    { rewrite store_pool_marks. simpl. rewrite (send_marks _ _ _ _ _ E1). reflexivity. }
+    assert (Po : forall u, u <> t -> pool_of (store_pool (add_mark s1 f t h 1) t (pool_set h tx1 p)) u = pool_of s u).
+    { intros u Hu. rewrite pool_of_store_other by assumption. unfold pool_of.
+      rewrite add_mark_frame, (proj1 (send_frame _ _ _ _ _ E1 u)). reflexivity. }
+    assert (St : forall u, a_stat (getA (store_pool (add_mark s1 f t h 1) t (pool_set h tx1 p)) u) = a_stat (getA s u)).
+    { intros u. rewrite stat_store_pool, add_mark_frame, (proj2 (send_frame _ _ _ _ _ E1 u)). reflexivity. }
+    assert (Rl : released s (store_pool (add_mark s1 f t h 1) t (pool_set h tx1 p)) t h = None).
+    { apply (released_present s _ t h _ tx1 (pool_of_store_same _ _ _)). rewrite pool_get_set, String.eqb_refl. reflexivity. }
+    assert (Pd : paid_without_release s (store_pool (add_mark s1 f t h 1) t (pool_set h tx1 p)) t h = false).
+    { apply (paid_reward_only s _ t h p tx rd r0 rr _ Hp Hg Hrw Hq). intros x d. rewrite bal_store_pool, add_mark_frame. apply B1. }
+    rewrite (voted_cons _ _ _ Mk), Pd, Rl. rewrite !andb_true_r.
+    destruct (HL true eq_refl) as [HL1 HL2]. rewrite andb_true_r in HL1, HL2.
+    set (lg1 := if negb (in3 f t h (l_appr lg) || in3 f t h (l_decl lg)) then lgc else lg) in *.
+    simpl fst. simpl snd. split.
+    + intros x Hin. apply in_app_or in Hin. destruct Hin as [Hin|Hin]; [exact (HL2 x Hin)|destruct Hin].
+    + exact (approve_inv lg lg1 s _ f t h p tx _ I Hp Hg Mk (pool_of_store_same _ _ _) Po St (or_intror eq_refl) HL1).
 Qed.
-
-Lemma sound_send : forall n lg s sg to amt pw rew h s',
-  Inv lg s -> handle v s (OSend sg to amt pw rew h) = Ok s' -> sound_step n lg s s' (OSend sg to amt pw rew h).
-Proof.
-  intros n lg s sg to amt pw rew h s' I E. pose proof I as (I1 & I2 & I3 & I4).
-  simpl in E. unfold bind in E. destruct (negb (coins_ok amt)); [discriminate|].
-  match type of E with (match ?a with _ => _ end) = _ => destruct a as [pooled| |] eqn:EP; try discriminate end.
-  unfold sound_step, op_clauses. cbv zeta.
-  destruct pooled.
-  - (* pooled: nothing moves *)
-    inversion E; subst s'. clear E.
-    rewrite (dec_nondec s _ sg) by (apply nondec_setA; [apply nondec_refl|reflexivity]).
-    simpl fst. simpl snd. split; [intros x []|].
-    apply (Inv_pool_update lg lg s (setA s sg (with_pool (getA s sg) (Some [(h, mkTx to amt pw rew 0 false)]))) sg
-             [(h, mkTx to amt pw rew 0 false)] I (log_le_refl _)
-             (log_marks_same lg s (setA s sg (with_pool (getA s sg) (Some [(h, mkTx to amt pw rew 0 false)]))) I1 eq_refl)
-             (pool_of_setA_same _ _ _) (fun u Hu => pool_of_setA_other _ _ _ _ Hu)).
-    + intros h' tx' Q. simpl in Q. destruct (String.eqb h' h); inversion Q; subst tx'. simpl.
-      split; [split; [lia|apply count_appr_nonneg]|discriminate].
-    + intros u. rewrite getA_setA. destruct (u =? sg) eqn:Eu; auto. assert (u = sg) by lia; subst. reflexivity.
-  - (* paid out directly: only without custodians and without password *)
-    assert (G : guarded (getA s sg) && (0 <? n_cust (getA s sg)) = false /\ flag s_pwd (getA s sg) = false).
-    { unfold guarded, flag. destruct (a_set (getA s sg)) as [st|]; [|auto].
-      destruct (s_en st).
-      - destruct (a_cust (getA s sg)) as [c|] eqn:Hc; [|discriminate]. injection EP as EP'.
-        apply orb_false_elim in EP'. destruct EP' as [X Y]. apply map_len_zero in X. subst c.
-        rewrite (n_cust_nil _ Hc). simpl. split; [reflexivity|exact Y].
-      - injection EP as EP'. simpl. split; [reflexivity|exact EP']. }
-    destruct G as [G1 G2].
-    assert (Po : forall u, pool_of s' u = pool_of s u).
-    { intros u. unfold pool_of. rewrite (proj1 (send_frame _ _ _ _ _ E u)). reflexivity. }
-    assert (St : forall u, a_stat (getA s' u) = a_stat (getA s u)).
-    { intros u. rewrite (proj2 (send_frame _ _ _ _ _ E u)). reflexivity. }
-    split.
-    + destruct (dec (getA s sg) (getA s' sg)); simpl fst; [|intros x []].
-      rewrite G1, G2. simpl app. intros x Hin. eapply wl_lim_custody_residual; exact Hin.
-    + destruct (dec (getA s sg) (getA s' sg)); simpl snd;
-        exact (Inv_same_pools lg lg s s' I (log_le_refl _) (log_marks_same lg s s' I1 (send_marks _ _ _ _ _ E)) Po St).
-Qed.
-
-Lemma sound_multi : forall n lg s sg to amt s',
-  Inv lg s -> handle v s (OMulti sg to amt) = Ok s' -> sound_step n lg s s' (OMulti sg to amt).
-Proof.
-  intros n lg s sg to amt s' I E. pose proof I as (I1 & I2 & I3 & I4).
-  simpl in E. destruct (negb (coins_ok amt)); [discriminate|].
-  assert (Po : forall u, pool_of s' u = pool_of s u).
-  { intros u. unfold pool_of. rewrite (proj1 (send_frame _ _ _ _ _ E u)). reflexivity. }
-  assert (St : forall u, a_stat (getA s' u) = a_stat (getA s u)).
-  { intros u. rewrite (proj2 (send_frame _ _ _ _ _ E u)). reflexivity. }
-  unfold sound_step, op_clauses. cbv zeta. split.
-  - destruct (dec (getA s sg) (getA s' sg)); simpl fst; [|intros x []].
-    intros x Hin. eapply path_multisend_residual; exact Hin.
-  - destruct (dec (getA s sg) (getA s' sg)); simpl snd;
-      exact (Inv_same_pools lg lg s s' I (log_le_refl _) (log_marks_same lg s s' I1 (send_marks _ _ _ _ _ E)) Po St).
-Qed.
-
-(* the nine settings messages touch neither pools, balances, limit statuses nor the vote store *)
-Ltac fr :=
-  first [ apply frame_pbs_setA; first [reflexivity | match goal with w : lst |- _ => destruct w; reflexivity end]
-        | eapply frame_pbs_trans; [eapply set_key_frame; eassumption
-                                  | apply frame_pbs_setA; first [reflexivity | match goal with w : lst |- _ => destruct w; reflexivity end]] ].
-Lemma handle_quiet : forall s o s', handle v s o = Ok s' ->
-  (match o with OSend _ _ _ _ _ _ | OApprove _ _ _ | ODecline _ _ _ | OConfirm _ _ _ _ _ | OBank _ _ _ _ | OMulti _ _ _ => False | _ => True end) ->
-  frame_pbs s s' /\ marks s' = marks s.
-Proof.
-  intros s o s' E Hq.
-  destruct o; try contradiction; simpl in E; unfold bind in E;
-    repeat (dmatch_in E; try discriminate); inversion E; subst;
-    (split; [fr | simpl; try reflexivity; try (eapply set_key_marks; eassumption)]).
-Qed.
-
-Lemma sound_quiet : forall n lg s o s',
-  Inv lg s -> handle v s o = Ok s' ->
-  (match o with OSend _ _ _ _ _ _ | OApprove _ _ _ | ODecline _ _ _ | OConfirm _ _ _ _ _ | OBank _ _ _ _ | OMulti _ _ _ => False | _ => True end) ->
-  sound_step n lg s s' o.
-Proof.
-  intros n lg s o s' I E Hq. pose proof I as (I1 & I2 & I3 & I4).
-  destruct (handle_quiet _ _ _ E Hq) as [F M].
-  assert (X : op_clauses n lg s s' o = ([], lg)) by (destruct o; try contradiction; reflexivity).
-  unfold sound_step. rewrite X. simpl. split; [intros x []|].
-  apply (Inv_same_pools lg lg s s' I (log_le_refl _) (log_marks_same lg s s' I1 M)).
-  - intros u. specialize (F u). unfold pbs in F. injection F as F1 F2 F3. unfold pool_of. exact F1.
-  - intros u. specialize (F u). unfold pbs in F. injection F as F1 F2 F3. exact F3.
-Qed.
-
-Lemma sound_bank : forall n lg s sg to amt now s',
-  Inv lg s -> step v H minrew s (OBank sg to amt now) = Ok s' -> sound_step n lg s s' (OBank sg to amt now).
-Proof.
-  intros n lg s sg to amt now s' I E. pose proof I as (I1 & I2 & I3 & I4).
-  destruct (step_inv _ _ _ _ _ _ E) as (s1 & Ea & Eh).
-  simpl in Eh. destruct (negb (coins_ok amt)) eqn:Eok; [discriminate|]. apply negb_false_iff in Eok.
-  (* the decorator *)
-  unfold Custody.ante in Ea. cbv zeta in Ea. simpl signer in Ea.
-  match type of Ea with bind ?X _ = _ => destruct X; simpl in Ea; try discriminate end.
-  destruct (ante_bank v (getA s sg) to amt now) as [r| |] eqn:Eb; simpl in Ea; try discriminate.
-  pose proof (ante_bank_ok _ _ _ _ _ _ Eb) as A.
-  assert (Key : path_clauses (getA s sg) to amt "bank_send" = [] /\ stat_inv s1 /\ marks s1 = marks s /\ (forall u, pool_of s1 u = pool_of s u)).
-  { unfold path_clauses, wl_lim_clauses, guarded, flag.
-    destruct (a_set (getA s sg)) as [st|] eqn:Hs.
-    2:{ subst r. inversion Ea; subst s1. repeat split; auto. }
-    destruct A as (A1 & A2 & A3).
-    assert (G : s_en st && (0 <? n_cust (getA s sg)) = false).
-    { destruct (s_en st); [|reflexivity]. rewrite (n_cust_nil _ (A1 eq_refl)). reflexivity. }
-    rewrite G. simpl app.
-    assert (W : (if s_wl st then match a_wl (getA s sg) with Some w => if bool_at to w then [] else [cl "whitelist" "bank_send"] | None => [] end else []) = []).
-    { destruct (s_wl st); [|reflexivity]. destruct (a_wl (getA s sg)) as [w|] eqn:Hl; [|reflexivity]. rewrite (A2 eq_refl w eq_refl). reflexivity. }
-    rewrite W. simpl app.
-    destruct (s_lim st).
-    - destruct A3 as (Hv & st' & Hr & Hf). subst r. inversion Ea; subst s1. clear Ea.
-      destruct (limits_fold_ok _ _ _ _ _ Hf) as [Hover Hst'].
-      + intros d a0 tm Q. destruct (a_stat (getA s sg)) as [x|] eqn:Hx; [exact (I4 sg x d a0 tm Hx Q)|discriminate].
-      + intros c Hc. eapply coins_ok_nonneg; eauto.
-      + split; [|split; [|split]].
-        * destruct (a_lim (getA s sg)) as [l|]; [|reflexivity]. rewrite Hover. reflexivity.
-        * intros x stx d a0 tm Q1 Q2. rewrite getA_setA in Q1. destruct (x =? sg) eqn:Ex.
-          -- simpl in Q1. inversion Q1; subst stx. exact (Hst' d a0 tm Q2).
-          -- exact (I4 x stx d a0 tm Q1 Q2).
-        * reflexivity.
-        * intros u. unfold pool_of. rewrite getA_setA. destruct (u =? sg) eqn:Eu; auto. assert (u = sg) by lia; subst. reflexivity.
-    - subst r. inversion Ea; subst s1. repeat split; auto. }
-  destruct Key as (K1 & K2 & K3 & K4).
-  assert (Po : forall u, pool_of s' u = pool_of s u).
-  { intros u. rewrite <- K4. unfold pool_of. rewrite (proj1 (send_frame _ _ _ _ _ Eh u)). reflexivity. }
-  unfold sound_step, op_clauses. cbv zeta. simpl kind_name. rewrite K1. split.
-  - destruct (dec (getA s sg) (getA s' sg)); simpl fst; intros x [].
-  - assert (V : Inv lg s').
-    { split; [exact (log_marks_same lg s s' I1 ltac:(rewrite (send_marks _ _ _ _ _ Eh); exact K3))|].
-      split; [|split].
-      - intros u q h tx Q1 Q2. rewrite Po in Q1. exact (I2 u q h tx Q1 Q2).
-      - intros u q h tx Q1 Q2 Q3. rewrite Po in Q1. exact (I3 u q h tx Q1 Q2 Q3).
-      - intros x st d a0 tm Q1 Q2. rewrite (proj2 (send_frame _ _ _ _ _ Eh x)) in Q1. exact (K2 x st d a0 tm Q1 Q2). }
-    destruct (dec (getA s sg) (getA s' sg)); simpl snd; exact V.
-Qed.
-
-Lemma sound_op : forall n lg s o s',
-  Inv lg s -> step v H minrew s o = Ok s' -> sound_step n lg s s' o.
-Proof.
-  intros n lg s o s' I E.
-  destruct o; try (apply sound_bank; assumption);
-    destruct (step_inv _ _ _ _ _ _ E) as (s1 & Ea & Eh);
-    (assert (Es : s1 = s) by (eapply ante_nonbank; [exact Ea | exact Logic.I])); subst s1;
-    first [ apply sound_approve; assumption | apply sound_decline; assumption | apply sound_confirm; assumption
-          | apply sound_send; assumption | apply sound_multi; assumption
-          | apply sound_quiet; [assumption|assumption|exact Logic.I] ].
-Qed.
-
-Lemma key_clauses_residual : forall n s s' o c, In c (key_clauses n s s' o) -> residual c = true.
-Proof.
-  intros n s s' o c Hin. unfold key_clauses in Hin. cbv zeta in Hin.
-  apply in_flat_map in Hin. destruct Hin as (i & _ & Hin).
-  repeat match goal with
-  | X : In _ (if ?b then _ else _) |- _ => destruct b
-  | X : In _ (match ?x with _ => _ end) |- _ => destruct x
-  | X : In _ [] |- _ => destruct X
-  | X : In _ (_ :: _) |- _ => destruct X as [X|X]; [subst; apply residual_key|]
-  end.
-Qed.
-
-Lemma trace_sound : forall ops n lg s, Inv lg s ->
-  forall c, In c (trace_clauses n lg s (model_trace v H minrew s ops)) -> residual c = true.
-Proof.
-  induction ops as [|o ops IH]; intros n lg s I c Hin; simpl in Hin; [contradiction|].
-  destruct (step v H minrew s o) as [s1|e|e] eqn:Es; unfold Custody.exec in Hin; rewrite Es in Hin; simpl outcome_code in Hin.
-  - simpl Z.eqb in Hin. cbv iota in Hin.
-    destruct (sound_op n lg s o s1 I Es) as [S1 S2].
-    apply in_app_or in Hin. destruct Hin as [Hin|Hin].
-    + unfold step_clauses in Hin. simpl fst in Hin.
-      apply in_app_or in Hin. destruct Hin as [Hin|Hin]; [eapply key_clauses_residual; exact Hin|].
-      apply in_app_or in Hin. destruct Hin as [Hin|Hin]; [rewrite (out_sound _ _ _ _ _ _ _ Es) in Hin; contradiction|].
-      exact (S1 c Hin).
-    + unfold step_clauses in Hin. simpl snd in Hin. exact (IH n _ s1 S2 c Hin).
-  - simpl Z.eqb in Hin. cbv iota in Hin. rewrite state_eqb_refl in Hin. simpl in Hin. exact (IH n lg s I c Hin).
-  - simpl Z.eqb in Hin. cbv iota in Hin. rewrite state_eqb_refl in Hin. simpl in Hin. exact (IH n lg s I c Hin).
-Qed.
-
-Lemma init_fields : forall bals t, a_pool (getA (init_state bals) t) = None /\ a_stat (getA (init_state bals) t) = None.
-Proof.
-  intros bals t. unfold getA, init_state. simpl.
-  generalize (seq 0 (List.length bals)). induction bals as [|b bals IH]; intros [|k ks]; simpl; auto.
-  destruct (t =? Z.of_nat k); auto.
-Qed.
-
-Lemma Inv_init : forall bals, Inv no_log (init_state bals).
-Proof.
-  intros bals. split; [|split; [|split]].
-  - intros f t h X. simpl in X. discriminate.
-  - intros t p h tx Q. unfold pool_of in Q. rewrite (proj1 (init_fields bals t)) in Q. discriminate.
-  - intros t p h tx Q. unfold pool_of in Q. rewrite (proj1 (init_fields bals t)) in Q. discriminate.
-  - intros x st d a tm Q. rewrite (proj2 (init_fields bals x)) in Q. discriminate.
-Qed.
-
-(* THE soundness of the checker on the repaired variant: over every history from the initial state the
-   checker reports nothing but the design-level clauses (settings changes without the target's key;
-   multi-send and custody send not covered by whitelist / limits) *)
-Theorem chk_sound_repaired : forall bals ops c, In c (model_clauses v H minrew bals ops) -> residual c = true.
-Proof. intros bals ops c Hin. unfold model_clauses in Hin. exact (trace_sound ops _ _ _ (Inv_init bals) c Hin). Qed.
 End Sound.
 
 (* ================================================================ 8. the full-strength statements, per variant *)
@@ -1447,7 +1321,7 @@ Lemma wrong_password_pays_out : forall v, v_pwd v = false -> exists ops f t h p 
 Proof.
   intros v Hv.
   exists (app (w_setup 100 true) [w_send; OApprove 2 0 "ab12cd34"; OApprove 3 0 "ab12cd34"])%string, 4, 0, "AB12cd34"%string,
-         "px"%string, "Px"%string, [("ab12cd34"%string, mkTx 5 [(0, 1000)] "P1" [(0, 400)] 2 false)], (mkTx 5 [(0, 1000)] "P1" [(0, 400)] 2 false).
+         "px"%string, "Px"%string, [("ab12cd34"%string, mkTx 0 5 [(0, 1000)] "P1" [(0, 400)] 2 false)], (mkTx 0 5 [(0, 1000)] "P1" [(0, 400)] 2 false).
   all_variants v; (vm_compute; repeat split; try reflexivity; discriminate).
 Qed.
 
